@@ -22,6 +22,7 @@
 # include "config.h"
 #endif
 
+#include <limits.h>
 #include <stdlib.h>
 #include <string.h>
 #include <math.h>
@@ -707,6 +708,7 @@ int mpq_EGlpNumReadStrXc (mpq_t var,
 	int n_char = 0,
 	  n_dig = 0,
 	  cn = 0;
+	int bad_exp = 0;
 	mpq_t den[2];
 	mpq_init (den[0]);
 	mpq_init (den[1]);
@@ -750,7 +752,12 @@ int mpq_EGlpNumReadStrXc (mpq_t var,
 			 * exponent */
 			else
 			{
-				l_exp = 10 * l_exp + c - '0';
+				/* an exponent that does not fit an int does not denote a number
+				 * this parser can build (and must not overflow the int) */
+				if (l_exp > (INT_MAX - 9) / 10)
+					bad_exp = 1;
+				else
+					l_exp = 10 * l_exp + c - '0';
 				a_exp_sgn = 0;
 			}
 			a_sgn = 0;
@@ -808,6 +815,8 @@ int mpq_EGlpNumReadStrXc (mpq_t var,
 		/* advance the reading character */
 		c = str[++n_char];
 	}
+	if (bad_exp)
+		n_char = 0;
 	if (n_char)
 	{
 		/* now expand the exponent of the denominator */
